@@ -36,10 +36,10 @@ class TFun2(T):
     name = 'fun[Ob,int->Prod]'
     def sort(self): return ArraySort(Ob.sort(), IntSort(), Prod.sort())
 PRT = TFun2()
-GT = TRec('CFGGen', [('Tm', SetOb), ('P', SetProd), ('impacts', MapImp), ('remaining', MapRem), ('added', SetOb), ('built', TBool), ('pr', PRT), ('cell', CELLT),       # ghosts: pr = the production a counter cell belongs to, cell = the index of a production's cell
+GT = TRec('CFGGen', [('Tm', SetOb), ('P', SetProd), ('S', Ob), ('impacts', MapImp), ('remaining', MapRem), ('added', SetOb), ('built', TBool), ('pr', PRT), ('cell', CELLT),       # ghosts: pr = the production a counter cell belongs to, cell = the index of a production's cell
                     
                      ('gen', SetOb), ('gen_none', TBool), ('nul', SetOb), ('nul_none', TBool)])
-for py, f in [('_terminals', 'Tm'), ('_productions', 'P'), ('_impacts', 'impacts'), ('_remaining_lists', 'remaining'), ('_added_impacts', 'added')]: W.fields[('CFGGen', py)] = f
+for py, f in [('_terminals', 'Tm'), ('_productions', 'P'), ('_start_symbol', 'S'), ('_impacts', 'impacts'), ('_remaining_lists', 'remaining'), ('_added_impacts', 'added')]: W.fields[('CFGGen', py)] = f
 W.consts['None'] = NONE_SYM
 W.axioms += Prod.axioms()
 EPSOB = C.EPSOB
@@ -136,7 +136,7 @@ def build_inv_inner(e, i):
                ForAll([c_], imult(G.impacts, c_, s0, i0) == OccPre(b, i.term, c_)))
 def frame_b(e):
     o = e.get('$old.self')
-    return And(e.self.Tm == o.Tm, e.self.P == o.P, e.self.gen == o.gen, e.self.gen_none == o.gen_none, e.self.nul == o.nul, e.self.nul_none == o.nul_none, e.self.built.term)
+    return And(e.self.Tm == o.Tm, e.self.P == o.P, e.self.S == o.S, e.self.gen == o.gen, e.self.gen_none == o.gen_none, e.self.nul == o.nul, e.self.nul_none == o.nul_none, e.self.built.term)
 def pr_update(e):
     if e.get('index_impact') is None: return {}
     b = body(e.production.term)
@@ -144,7 +144,7 @@ def pr_update(e):
             'self.cell': Sym(CELLT, If(Length(b) > 0, Store(e.self.cell.term, e.production.term, e.index_impact.term), e.self.cell.term))}
 W.contract(Contract('CFGGen._set_impacts_and_remaining_lists', [('self', GT)], ret=TNone, modifies=('self',),
     requires=lambda o: tables_inv(o.self),
-    ensures=lambda o, r, n: And(tables_ok(n.self), fresh_counters(n.self), n.self.Tm == o.self.Tm, n.self.P == o.self.P,
+    ensures=lambda o, r, n: And(tables_ok(n.self), fresh_counters(n.self), n.self.Tm == o.self.Tm, n.self.P == o.self.P, n.self.S == o.self.S,
                                 n.self.gen == o.self.gen, n.self.gen_none == o.self.gen_none, n.self.nul == o.self.nul, n.self.nul_none == o.self.nul_none,
                                 Implies(o.self.built.term, n.self == o.self)),
     ghost_updates={'0': pr_update}, ghost_fields_of=('self',),
@@ -162,7 +162,7 @@ def common(e, POP, pending_current=None):
                ForAll([x], Implies(Select(POP, x), g[x])), ForAll([x], Implies(tp[x] > 0, And(g[x], Or(x == EPSOB, Not(Select(POP, x)))))),
                ForAll([x], Implies(g[x], Or(Select(POP, x), tp[x] > 0, cur(x)))),
                ForAll([x], Implies(g[x], Or(x == EPSOB, Select(gns(e), x)))),
-               e.self.impacts == B0.impacts, e.self.added == B0.added, e.self.Tm == B0.Tm, e.self.P == B0.P, e.self.built.term, e.self.pr == B0.pr, e.self.cell == B0.cell,
+               e.self.impacts == B0.impacts, e.self.added == B0.added, e.self.Tm == B0.Tm, e.self.P == B0.P, e.self.S == B0.S, e.self.built.term, e.self.pr == B0.pr, e.self.cell == B0.cell,
                e.self.gen == B0.gen, e.self.gen_none == B0.gen_none, e.self.nul == B0.nul, e.self.nul_none == B0.nul_none,
                same_shape(e.self.remaining, B0.remaining))
 def counters(e, POP, minus=None):
@@ -207,13 +207,13 @@ def sound_lemma(o):
 def inv_r(e, done):            # restoring loop: the result set is final; cells listed in processed_with_modification exist
     return And(restore(e, done), ForAll([s_, i_], e.processed_with_modification[pair(s_, i_)] >= 0), ForAll([s_, i_], Implies(e.processed_with_modification[pair(s_, i_)] > 0, cdom(e.get(BUILT).remaining, s_, i_))),
                same_shape(e.self.remaining, e.get(BUILT).remaining),
-               e.self.Tm == e.get(BUILT).Tm, e.self.P == e.get(BUILT).P, e.self.pr == e.get(BUILT).pr, e.self.cell == e.get(BUILT).cell, e.self.impacts == e.get(BUILT).impacts, e.self.added == e.get(BUILT).added, e.self.built.term,
+               e.self.Tm == e.get(BUILT).Tm, e.self.P == e.get(BUILT).P, e.self.S == e.get(BUILT).S, e.self.pr == e.get(BUILT).pr, e.self.cell == e.get(BUILT).cell, e.self.impacts == e.get(BUILT).impacts, e.self.added == e.get(BUILT).added, e.self.built.term,
                e.self.gen == e.get(BUILT).gen, e.self.gen_none == e.get(BUILT).gen_none, e.self.nul == e.get(BUILT).nul, e.self.nul_none == e.get(BUILT).nul_none)
 
 def gn_post(o, r, n):
     B = If(o.nullable.term, EMPTY, o.self.Tm.term)
     return And(ForAll([x], r[x] == And(x != EPSOB, Select(GNS(o.self.P.term, B), x))),
-               n.self.Tm == o.self.Tm, n.self.P == o.self.P, n.self.gen == o.self.gen, n.self.gen_none == o.self.gen_none, n.self.nul == o.self.nul, n.self.nul_none == o.self.nul_none)
+               n.self.Tm == o.self.Tm, n.self.P == o.self.P, n.self.S == o.self.S, n.self.gen == o.self.gen, n.self.gen_none == o.self.gen_none, n.self.nul == o.self.nul, n.self.nul_none == o.self.nul_none)
 W.contract(Contract('CFGGen._get_generating_or_nullable', [('self', GT), ('nullable', TBool)], ret=SetOb, modifies=('self',),
     requires=lambda o: And(no_eps_bodies(o.self), terminals_clean(o.self), tables_inv(o.self)), ensures=lambda o, r, n: And(gn_post(o, r, n), tables_ok(n.self), fresh_counters(n.self)),
     locals={'processed_with_modification': BagPair},
@@ -225,6 +225,52 @@ W.contract(Contract('CFGGen._get_generating_or_nullable', [('self', GT), ('nulla
                                ForAll([pr], Implies(And(e.get(BUILT).P[pr], AllIn(e.g_symbols.term, body(pr))), e.g_symbols[head(pr)]))]},   # and it is closed under the productions
     hints=lambda o, e, r: [gn_induction(o.self.P.term, If(o.nullable.term, EMPTY, o.self.Tm.term), Store(r.term, EPSOB, True))],
     if_ordinals=True, loops={'0': inv_pre, 'if0.0': inv_ter, '1': inv_w, '1.0': inv_w0, '2': inv_r}))
+
+# ------------------------------------------------------------------ generate_epsilon (C08): the same worklist on a copy of the counters, stopping at the start symbol
+W.identity_fns |= {'deepcopy'}                     # a deep copy of a dict of lists of ints is the same value
+def ge_frame(e):
+    B0 = e.get(BUILT)
+    return e.self == B0                            # the object itself is not touched after the tables are built: the counters are decremented on a copy
+def ge_common(e, POP, pending_current=None):
+    g, tp, B0 = e.generate_epsilon, e.to_process, e.get(BUILT); nul = GNS(B0.P.term, EMPTY)
+    cur = (lambda v: v == pending_current) if pending_current is not None else (lambda v: BoolVal(False))
+    return And(g[EPSOB], ForAll([x], And(tp[x] >= 0, tp[x] <= 1)), Not(g[B0.S.term]),
+               ForAll([x], Implies(Select(POP, x), g[x])), ForAll([x], Implies(tp[x] > 0, And(g[x], Not(Select(POP, x))))),
+               ForAll([x], Implies(g[x], Or(Select(POP, x), tp[x] > 0, cur(x)))),
+               ForAll([x], Implies(g[x], Or(x == EPSOB, Select(nul, x)))), ge_frame(e))
+def ge_counters(e, R, POP, minus=None):
+    g, B0 = e.generate_epsilon, e.get(BUILT); PR = B0.pr
+    m = (lambda s, i: Select(minus.term, pair(s, i))) if minus is not None else (lambda s, i: 0)
+    return And(same_shape(R, B0.remaining),
+               ForAll([s_, i_], Implies(And(cdom(B0.remaining, s_, i_), Not(g[s_])),
+                                        And(cval(R, s_, i_) == Length(body(prod_of(PR, s_, i_))) - NP(POP, body(prod_of(PR, s_, i_))) - m(s_, i_), cval(R, s_, i_) > 0))))
+def ge_step_facts(e):
+    cur, B0 = e.current.term, e.get(BUILT); PR = B0.pr
+    return ForAll([s_, i_], Implies(cdom(B0.remaining, s_, i_), NP(Store(pop(e), cur, True), body(prod_of(PR, s_, i_))) == NP(pop(e), body(prod_of(PR, s_, i_))) + Occ(body(prod_of(PR, s_, i_)), cur)))
+def ge_added(e, done=None):
+    B0 = e.get(BUILT)
+    return ForAll([x], Implies(And(B0.added[x], (done[x] if done is not None else BoolVal(True))), e.generate_epsilon[x]))
+def ge_post(o, r, n):
+    return And(r.term == Select(GNS(o.self.P.term, EMPTY), o.self.S.term), tables_ok(n.self), fresh_counters(n.self),
+               n.self.Tm == o.self.Tm, n.self.P == o.self.P, n.self.S == o.self.S, n.self.gen == o.self.gen, n.self.gen_none == o.self.gen_none, n.self.nul == o.self.nul, n.self.nul_none == o.self.nul_none)
+def ge_sound(o):
+    P = o.self.P
+    return ForAll([X_, pr], Implies(And(P[pr], AllIn(X_, body(pr)), ForAll([y], Implies(Select(X_, y), Or(y == EPSOB, Select(GNS(P.term, EMPTY), y))))), Select(GNS(P.term, EMPTY), head(pr))))
+W.contract(Contract('CFGGen.generate_epsilon', [('self', GT)], ret=TBool, modifies=('self',),
+    requires=lambda o: And(no_eps_bodies(o.self), tables_inv(o.self), o.self.S.term != EPSOB), ensures=ge_post,
+    ghost_state={'POP': (SetOb, lambda o: SetOb.empty())},
+    ghost_updates={'1': lambda e: {'POP': Sym(SetOb, Store(e.get('$g.POP').term, e.current.term, True))}},
+    entry_lemmas=lambda o: [('a body inside the nullable symbols gives a nullable head', [ALLIN_DEF, GN_STEP], ge_sound(o)),
+                            ('the sentinel occurs in no body', [COUNT_FACTS[4], COUNT_FACTS[5]], ForAll([pr], Implies(o.self.P[pr], Occ(body(pr), EPSOB) == 0)))],
+    loop_post={'1': lambda e: [e.generate_epsilon.term == pop(e),
+                               ForAll([pr], Implies(And(e.get(BUILT).P[pr], AllIn(e.generate_epsilon.term, body(pr))), e.generate_epsilon[head(pr)]))]},
+    hints=lambda o, e, r: [gn_induction(o.self.P.term, EMPTY, e.generate_epsilon.term)] if 'generate_epsilon' in e else [],
+    loops={'0': lambda e, done: And(ge_common(e, EMPTY), ge_counters(e, e.self.remaining, EMPTY), ge_added(e, done),
+                                    ForAll([x], Implies(e.generate_epsilon[x], Or(x == EPSOB, done[x])))),
+           '1': lambda e, done: And(ge_common(e, pop(e)), ge_counters(e, e.remaining_lists, pop(e)), ge_added(e)),
+           '1.0': lambda e, done: And(ge_common(e, pop(e), e.current.term), e.generate_epsilon[e.current.term], Not(Select(pop(e), e.current.term)), e.to_process[e.current.term] == 0,
+                                      ge_counters(e, e.remaining_lists, pop(e), done), ge_added(e), ge_step_facts(e),
+                                      ForAll([s_, i_], Implies(Select(done.term, pair(s_, i_)) > 0, cdom(e.get(BUILT).remaining, s_, i_))))}))
 
 # ------------------------------------------------------------------ the memoising wrappers
 OPTSET = TRec('OptSetOb', [('isnone', TBool), ('val', SetOb)])          # Optional[set]: None or a set
@@ -240,7 +286,7 @@ def memo_ok(G):
 def wrapper(name, base, which):
     W.contract(Contract(name, [('self', GT)], ret=OPTSET, modifies=('self',),
         requires=lambda o: And(no_eps_bodies(o.self), terminals_clean(o.self), memo_ok(o.self), tables_inv(o.self)),
-        ensures=lambda o, r, n: And(Not(r.isnone.term), is_gns(r.val.term, o.self, base(o)), memo_ok(n.self), tables_inv(n.self), n.self.P == o.self.P, n.self.Tm == o.self.Tm,
+        ensures=lambda o, r, n: And(Not(r.isnone.term), is_gns(r.val.term, o.self, base(o)), memo_ok(n.self), tables_inv(n.self), n.self.P == o.self.P, n.self.Tm == o.self.Tm, n.self.S == o.self.S,
                                     *( [n.self.nul == o.self.nul, n.self.nul_none == o.self.nul_none] if which == 'gen' else [n.self.gen == o.self.gen, n.self.gen_none == o.self.gen_none]))))
 wrapper('CFGGen.get_generating_symbols', lambda o: o.self.Tm.term, 'gen')
 wrapper('CFGGen.get_nullable_symbols', lambda o: EMPTY, 'nul')
@@ -249,8 +295,13 @@ W.ground_sorts = (Ob.sort(),)
 W.special = {}
 _P = 'pyformlang/cfg/cfg.py'
 TARGETS = {'CFGGen._set_impacts_and_remaining_lists': (_P, 'CFG._set_impacts_and_remaining_lists'), 'CFGGen._get_generating_or_nullable': (_P, 'CFG._get_generating_or_nullable'), 'CFGGen.get_generating_symbols': (_P, 'CFG.get_generating_symbols'),
-           'CFGGen.get_nullable_symbols': (_P, 'CFG.get_nullable_symbols')}
+           'CFGGen.get_nullable_symbols': (_P, 'CFG.get_nullable_symbols'), 'CFGGen.generate_epsilon': (_P, 'CFG.generate_epsilon')}
 SMOKE = [
+    ('CFGGen.generate_epsilon', _P, "                    if symbol_impact == self._start_symbol:\n                        return True\n", "", 'break'),
+    ('CFGGen.generate_epsilon', _P, "            if symbol == self._start_symbol:\n                return True\n", "            if symbol == self._start_symbol:\n                return False\n", 'break'),
+    ('CFGGen.generate_epsilon', _P, "        remaining_lists = deepcopy(remaining_lists)\n", "", 'break'),
+    ('CFGGen._set_impacts_and_remaining_lists', _P, "            temp.append(len(body))\n            index_impact = len(temp) - 1", "            temp.append(len(body))\n            index_impact = len(temp)", 'break'),
+    ('CFGGen._set_impacts_and_remaining_lists', _P, "            if not body:\n                self._added_impacts.add(head)\n                continue", "            if not body:\n                continue", 'break'),
     ('CFGGen.get_generating_symbols', _P, "            self._generating_symbols = self._get_generating_or_nullable(False)", "            self._generating_symbols = self._get_generating_or_nullable(True)", 'break'),
     ('CFGGen.get_nullable_symbols', _P, "        if self._nullable_symbols is None:\n            self._nullable_symbols = self._get_generating_or_nullable(True)", "        if self._generating_symbols is None:\n            self._nullable_symbols = self._get_generating_or_nullable(True)", 'break'),
     ('CFGGen._get_generating_or_nullable', _P, "                self._remaining_lists[symbol_impact][index_impact] -= 1\n", "                self._remaining_lists[symbol_impact][index_impact] -= 2\n", 'break'),
